@@ -655,13 +655,19 @@ impl driver_context_t<morx::InsertionEntryData> for InsertionCtx<'_> {
         let mark_loc = buffer.out_len;
 
         if entry.extra.marked_insert_index != 0xFFFF {
-            let count = flags & Self::MARKED_INSERT_COUNT;
+            let mut count = flags & Self::MARKED_INSERT_COUNT;
             buffer.max_ops -= i32::from(count);
             if buffer.max_ops <= 0 {
                 return Some(());
             }
 
-            let start = entry.extra.marked_insert_index;
+            let start = u32::from(entry.extra.marked_insert_index);
+            // A glyph list that is not entirely inside the table inserts nothing, as in
+            // HarfBuzz (`if (!check_array (glyphs, count)) count = 0;`). Bailing out of the
+            // loop below instead would leave the buffer rewound at the mark.
+            if count != 0 && self.glyphs.get(start + u32::from(count) - 1).is_none() {
+                count = 0;
+            }
             let before = flags & Self::MARKED_INSERT_BEFORE != 0;
 
             let end = buffer.out_len;
@@ -673,7 +679,7 @@ impl driver_context_t<morx::InsertionEntryData> for InsertionCtx<'_> {
 
             // TODO We ignore KashidaLike setting.
             for i in 0..count {
-                let i = u32::from(start + i);
+                let i = start + u32::from(i);
                 buffer.output_glyph(u32::from(self.glyphs.get(i)?.0));
             }
 
@@ -694,13 +700,17 @@ impl driver_context_t<morx::InsertionEntryData> for InsertionCtx<'_> {
         }
 
         if entry.extra.current_insert_index != 0xFFFF {
-            let count = (flags & Self::CURRENT_INSERT_COUNT) >> 5;
+            let mut count = (flags & Self::CURRENT_INSERT_COUNT) >> 5;
             buffer.max_ops -= i32::from(count);
             if buffer.max_ops < 0 {
                 return Some(());
             }
 
-            let start = entry.extra.current_insert_index;
+            let start = u32::from(entry.extra.current_insert_index);
+            // See above.
+            if count != 0 && self.glyphs.get(start + u32::from(count) - 1).is_none() {
+                count = 0;
+            }
             let before = flags & Self::CURRENT_INSERT_BEFORE != 0;
             let end = buffer.out_len;
 
@@ -710,7 +720,7 @@ impl driver_context_t<morx::InsertionEntryData> for InsertionCtx<'_> {
 
             // TODO We ignore KashidaLike setting.
             for i in 0..count {
-                let i = u32::from(start + i);
+                let i = start + u32::from(i);
                 buffer.output_glyph(u32::from(self.glyphs.get(i)?.0));
             }
 
